@@ -141,14 +141,14 @@ theorem sumLiterals_sound (f : Nat) (e e' : E) (h : sumLiterals f e = some e') :
   · injection h with h; subst h; exact ha
 
 
-/-! ### separate_coefficients / mul_literals (strict mode) -/
+/-! ### separate_coefficients / mul_literals -/
 
 def SplitMul (ρ : IEnv) (a : Int) (r : Int × Option E) : Prop :=
   match r.2 with
   | none => a = r.1
   | some c => ∃ b, aval ρ c = some b ∧ a = r.1 * b
 
-theorem scProc_sound : ∀ (f : Nat) (e : E) (r : Int × Option E), scProc true f e = some r →
+theorem scProc_sound : ∀ (f : Nat) (e : E) (r : Int × Option E), scProc f e = some r →
     ∀ a, aval ρ e = some a → SplitMul ρ a r := by
   intro f
   induction f with
@@ -159,38 +159,24 @@ theorem scProc_sound : ∀ (f : Nat) (e : E) (r : Int × Option E), scProc true 
     split at h
     · injection h with h; subst h; simp only [aval] at ha; injection ha with ha; simp [SplitMul, ha]
     · injection h with h; subst h; simp only [aval] at ha; injection ha with ha; simp [SplitMul, ha]
-    · rename_i p c rest
-      split at h
-      · rename_i hc
-        have hc' := isPyMinusOne_eq hc
-        subst hc'
-        split at h
-        · simp at h
-        · rename_i x
-          cases hr : scProc true f x with
-          | none => simp [hr] at h
-          | some r' =>
-            simp only [hr, Option.bind_eq_bind, Option.bind_some] at h
-            injection h with h; subst h
-            rw [aval_prod, aprod_cons] at ha
-            obtain ⟨m, y, hm, hy, rfl⟩ := ha
-            simp only [aval] at hm; injection hm with hm; subst hm
-            rw [aprod_single] at hy
-            have := ih x r' hr y hy
-            unfold SplitMul at this ⊢
-            cases h2 : r'.2 with
-            | none => simp only [h2] at this ⊢; subst this; simp
-            | some c =>
-              simp only [h2] at this ⊢
-              obtain ⟨b, hb, rfl⟩ := this
-              exact ⟨b, hb, by simp [Int.neg_mul]⟩
-        · simp at h
+    · split at h
+      · rename_i hm
+        simp only [Option.bind_eq_bind, Option.bind_eq_some_iff] at h
+        obtain ⟨r', hr, h⟩ := h
+        simp only [pure, Option.some.injEq] at h; subst h
+        obtain ⟨b, hb, rfl⟩ := minusPrefix_val hm ha
+        have := ih _ r' hr b hb
+        unfold SplitMul at this ⊢
+        cases h2 : r'.2 with
+        | none => simp only [h2] at this ⊢; omega
+        | some c =>
+          simp only [h2] at this ⊢
+          obtain ⟨z, hz, rfl⟩ := this
+          exact ⟨z, hz, by simp [Int.neg_mul]⟩
       · injection h with h; subst h
         exact ⟨a, ha, by simp⟩
-    · injection h with h; subst h
-      exact ⟨a, ha, by simp⟩
 
-theorem sepList : ∀ (f : Nat) (cs : List E) (ps : List (Int × Option E)), mapOpt (scProc true f) cs = some ps →
+theorem sepList : ∀ (f : Nat) (cs : List E) (ps : List (Int × Option E)), mapOpt (scProc f) cs = some ps →
     ∀ a, aprod ρ cs = some a → ∃ b, aprod ρ (ps.filterMap (·.2)) = some b ∧ a = prodInts (ps.map (·.1)) * b := by
   intro f cs
   induction cs with
@@ -216,7 +202,7 @@ theorem sepList : ∀ (f : Nat) (cs : List E) (ps : List (Int × Option E)), map
       · simp only [List.filterMap_cons, h2]; rw [aprod_cons]; exact ⟨z, b, hz, hb, rfl⟩
       · simp only [List.map_cons, prodInts]; rw [e]; simp only [Int.mul_assoc, Int.mul_left_comm]
 
-theorem sepCoeff_sound : ∀ (f : Nat) (e : E) (r : Int × List E), sepCoeff true f e = some r →
+theorem sepCoeff_sound : ∀ (f : Nat) (e : E) (r : Int × List E), sepCoeff f e = some r →
     ∀ a, aval ρ e = some a → ∃ b, aprod ρ r.2 = some b ∧ a = r.1 * b := by
   intro f
   induction f with
@@ -229,7 +215,7 @@ theorem sepCoeff_sound : ∀ (f : Nat) (e : E) (r : Int × List E), sepCoeff tru
     · rename_i p cs
       split at h
       · rename_i hm
-        cases hr : sepCoeff true f (stripMinus (.prod p cs)) with
+        cases hr : sepCoeff f (stripMinus (.prod p cs)) with
         | none => simp [hr] at h
         | some r' =>
           simp only [hr, Option.bind_eq_bind, Option.bind_some] at h
@@ -239,7 +225,7 @@ theorem sepCoeff_sound : ∀ (f : Nat) (e : E) (r : Int × List E), sepCoeff tru
           exact ⟨z, hz, by simp [Int.neg_mul]⟩
       · split at h
         · simp at h
-        · cases hps : mapOpt (scProc true f) cs with
+        · cases hps : mapOpt (scProc f) cs with
           | none => simp [hps] at h
           | some ps =>
             simp only [hps, Option.bind_eq_bind, Option.bind_some] at h
@@ -270,11 +256,11 @@ theorem mulBuild_sound (v : Int) (rem : List E) (b : Int) (hb : aprod ρ rem = s
       have : (v.natAbs : Int) = v := by omega
       rw [show ((v.natAbs : Int) * b) = v * b by rw [this]] at key; exact key
 
-theorem mulLiterals_sound (f : Nat) (e e' : E) (h : mulLiterals true f e = some e') : RefA ρ e e' := by
+theorem mulLiterals_sound (f : Nat) (e e' : E) (h : mulLiterals f e = some e') : RefA ρ e e' := by
   intro a ha
   unfold mulLiterals at h
   split at h
-  · cases hr : sepCoeff true f e with
+  · cases hr : sepCoeff f e with
     | none => simp [hr] at h
     | some r =>
       simp only [hr, Option.bind_eq_bind, Option.bind_some] at h
@@ -328,7 +314,7 @@ theorem natCast_pos_of_bne {n : Nat} (h : ¬(((n : Int)) == 0) = true) : (0 : In
   have : (n : Int) ≠ 0 := by simpa using h
   omega
 
-theorem divLiterals_sound : ∀ (f : Nat) (e e' : E), divLiterals true f e = some e' → RefA ρ e e' := by
+theorem divLiterals_sound : ∀ (f : Nat) (e e' : E), divLiterals f e = some e' → RefA ρ e e' := by
   intro f
   induction f with
   | zero => intro e e' h; simp [divLiterals] at h
@@ -341,7 +327,7 @@ theorem divLiterals_sound : ∀ (f : Nat) (e e' : E), divLiterals true f e = som
       split at h
       · -- minus-prefixed numerator
         rename_i hm
-        cases hr : divLiterals true f (.quot false (stripMinus num) den) with
+        cases hr : divLiterals f (.quot false (stripMinus num) den) with
         | none => simp [hr] at h
         | some r =>
           simp only [hr, Option.bind_eq_bind, Option.bind_some] at h
@@ -351,7 +337,7 @@ theorem divLiterals_sound : ∀ (f : Nat) (e e' : E), divLiterals true f e = som
           rw [negProd_val this, Int.neg_tdiv]
       · split at h
         · rename_i hm
-          cases hr : divLiterals true f (.quot false num (stripMinus den)) with
+          cases hr : divLiterals f (.quot false num (stripMinus den)) with
           | none => simp [hr] at h
           | some r =>
             simp only [hr, Option.bind_eq_bind, Option.bind_some] at h
@@ -390,7 +376,7 @@ theorem divLiterals_sound : ∀ (f : Nat) (e e' : E), divLiterals true f e = som
                   subst h
                   obtain ⟨b, hb, rfl⟩ := sepCoeff_sound f _ r hr x hx
                   have hg0 := natCast_pos_of_bne hg
-                  have aux : ∀ c : Int, mulLiterals true f (E.prod false (E.ilit c :: r.2)) = some m →
+                  have aux : ∀ c : Int, mulLiterals f (E.prod false (E.ilit c :: r.2)) = some m →
                       aval ρ m = some (c * b) := fun c hc =>
                     mulLiterals_sound (ρ := ρ) f _ m hc (c * b)
                       (by rw [aval_prod, aprod_cons]; exact ⟨c, b, by simp only [aval], hb, rfl⟩)
